@@ -17,6 +17,8 @@
 // The compile-time minimum is defined by the program itself, after some nitro log headers have already been seen
 // (a wrapper header typically does this); it must be the one in effect for every statement below.
 #include <nitro/log/severity.hpp>
+#include <cstdint>
+#include <limits>
 #include <nitro/log/filter/severity_filter.hpp>
 #include <nitro/log/sink/sequence.hpp>
 #define NITRO_LOG_MIN_SEVERITY VP_LATE_DEFINE
@@ -255,6 +257,8 @@ enum
             // but callables streamed afterwards are still evaluated and the record is still emitted)
     I_POLY, // an object of a derived class streamed through a reference to its base (the text comes from a virtual)
     I_LONG, // a text of 5000 characters (beyond any small buffer)
+    I_BIGU, // the largest unsigned 64-bit value (above every signed type's range)
+    I_MINI, // the smallest signed 64-bit value
     I_KINDS
 };
 
@@ -366,6 +370,8 @@ void feed_one(Stream& s, const Stmt& st, size_t p)
     case I_NULL: s << static_cast<const char*>(nullptr); break;
     case I_POLY: s << poly(); break;
     case I_LONG: s << long_text(); break;
+    case I_BIGU: s << std::numeric_limits<std::uint64_t>::max(); break;
+    case I_MINI: s << std::numeric_limits<std::int64_t>::min(); break;
     default: s << CallNest<L, SEV>{ id }; break;
     }
 }
@@ -397,6 +403,8 @@ void feed_chain(Stream&& s, const Stmt& st, size_t p)
     case I_NULL: feed_chain<L, SEV>(std::move(s) << static_cast<const char*>(nullptr), st, p + 1); break;
     case I_POLY: feed_chain<L, SEV>(std::move(s) << poly(), st, p + 1); break;
     case I_LONG: feed_chain<L, SEV>(std::move(s) << long_text(), st, p + 1); break;
+    case I_BIGU: feed_chain<L, SEV>(std::move(s) << std::numeric_limits<std::uint64_t>::max(), st, p + 1); break;
+    case I_MINI: feed_chain<L, SEV>(std::move(s) << std::numeric_limits<std::int64_t>::min(), st, p + 1); break;
     default: feed_chain<L, SEV>(std::move(s) << CallNest<L, SEV>{ id }, st, p + 1); break;
     }
 }
@@ -478,6 +486,8 @@ void run_stmt_sev(const Stmt& st)
         case I_NULL: VP_BOUND(static_cast<const char*>(nullptr))
         case I_POLY: VP_BOUND(poly())
         case I_LONG: VP_BOUND(long_text())
+        case I_BIGU: VP_BOUND(std::numeric_limits<std::uint64_t>::max())
+        case I_MINI: VP_BOUND(std::numeric_limits<std::int64_t>::min())
         default: VP_BOUND((CallNest<L, SEV>{ id }))
         }
 #undef VP_BOUND
@@ -606,6 +616,8 @@ inline void ref_items(int e, const int t[3], const Stmt& st, std::vector<Event>&
         case I_NULL: o << static_cast<const char*>(nullptr); break;
         case I_POLY: o << "circle(r=2)"; break;
         case I_LONG: o << long_text(); break;
+        case I_BIGU: o << std::numeric_limits<std::uint64_t>::max(); break; // (numbers follow the base the statement set, like the implementation's stream)
+        case I_MINI: o << std::numeric_limits<std::int64_t>::min(); break;
         default:
         {
             ev.push_back(Event{ 'C', id });
@@ -749,6 +761,7 @@ struct Case
                   // 2 thresholds change to t2 between prog[0] and prog[1],
                   // 3 the statements run from a destructor while an exception is propagating (stack unwinding)
                   // 4 two named streams with non-nested lifetimes and a whole statement in between (prog[0..2])
+                  // 5 the thresholds change to t2 while the named stream of prog[0] is open (after half of its items)
     int t2[3] = { 0, 0, 0 };
     std::string json() const
     {
@@ -791,13 +804,34 @@ struct Case
     }
     std::string cls() const
     {
-        std::string s = std::string("min") + std::to_string(VP_MIN) + " " + expr_name(expr) + (mode == 1 ? " overlapping" : mode == 2 ? " threshold-change" : mode == 3 ? " during-unwinding" : mode == 4 ? " non-nested-streams" : "");
+        std::string s = std::string("min") + std::to_string(VP_MIN) + " " + expr_name(expr) + (mode == 1 ? " overlapping" : mode == 2 ? " threshold-change" : mode == 3 ? " during-unwinding" : mode == 4 ? " non-nested-streams" : mode == 5 ? " threshold-change-while-open" : "");
         for (auto& st : prog)
             s += " " + st.str();
         return s;
     }
 };
 
+// the thresholds change while a named stream is open
+template <typename L, int SEV>
+void change_while_open(const Stmt& a, const int t2[3])
+{
+    auto s = make_stream<L, SEV>(a.tagged);
+    size_t half = (a.items.size() + 1) / 2;
+    for (size_t p = 0; p < half; p++)
+        feed_one<L, SEV>(s, a, p);
+    set_thresholds(t2);
+    for (size_t p = half; p < a.items.size(); p++)
+        feed_one<L, SEV>(s, a, p);
+}
+template <int SEV>
+void run_change_expr(int e, const Stmt& a, const int t2[3])
+{
+    switch (e)
+    {
+    case 0: change_while_open<Logger<E0>, SEV>(a, t2); break;
+    default: change_while_open<Logger<E3>, SEV>(a, t2); break;
+    }
+}
 template <int SEV>
 void run_nonnested_expr(int e, const Stmt& a, const Stmt& b, const Stmt& z)
 {
@@ -858,6 +892,26 @@ inline std::vector<Finding> run_case(const Case& c)
         {
         }
         want = ref_program(c.expr, c.t, c.prog);
+    }
+    else if (c.mode == 5)
+    {
+        const Stmt& a = c.prog[0];
+        switch (a.sev)
+        {
+        case 0: run_change_expr<0>(c.expr, a, c.t2); break;
+        case 1: run_change_expr<1>(c.expr, a, c.t2); break;
+        case 2: run_change_expr<2>(c.expr, a, c.t2); break;
+        case 3: run_change_expr<3>(c.expr, a, c.t2); break;
+        case 4: run_change_expr<4>(c.expr, a, c.t2); break;
+        default: run_change_expr<5>(c.expr, a, c.t2); break;
+        }
+        // The statement does not say at which moment of an open statement the filter is asked.  What it does say is that
+        // lazy evaluation and delivery go together: either the statement is an emitted record (every callable once, one
+        // record) or it is a rejected one (nothing at all).  Both complete outcomes are accepted when the two thresholds
+        // disagree; a statement whose callables ran but which was not delivered (or the reverse) is neither.
+        auto w1 = ref_program(c.expr, c.t, { a });
+        auto w2 = ref_program(c.expr, c.t2, { a });
+        want = events() == w2 ? w2 : w1;
     }
     else if (c.mode == 4)
     {
